@@ -61,7 +61,7 @@ def run_c12(ctx):
                     farmer_roles=[role] if role else None,
                     allow_cases=(role != "sampler"),
                     ext_choice=False,  # extension-less data names are C05's subject
-                    world_cfg={"max_steps": 30000})
+                    world_cfg={"max_steps": 30000, "mtime_granularity": "tape"})
     w = m.w
     sw = m.sc.sweep
     kind = m.sc.kind
@@ -278,13 +278,28 @@ def run_c12(ctx):
                             site=xyz_site(exc))
         # ---------------------------------------------------- corrected retry
         retry_opts = {}
+        check_stage = stage
         if stage == "incomplete":
             m.grow_op(how="grow_missing")
         elif stage == "unreadable":
             got, _ = m.call("checker", lambda: m.load_crop().check_bad(), oracle="check_bad-raised")
             m.grow_op(how="grow_missing")
         elif stage == "merge-conflict":
-            retry_opts["overwrite"] = True
+            if t.flag(1, 2, "fix-the-data-file"):
+                # the other way to correct a conflict: another session repairs the data on
+                # disk (here: replaces it by data at other coordinates); the plain reap -
+                # also on the object that still remembers the old file - must then deliver
+                fixed = make_pre_dataset(m, conflict=False)
+
+                def fix():
+                    xyzpy.save_ds(fixed.copy(deep=True), fspec.data_name, engine=fspec.engine)
+
+                m.call("data-fixer", fix, oracle="pre-save-raised")
+                pre_ds = fixed
+                check_stage = "conflict-fixed-on-disk"
+                ctx.stats["conflict-fixed-on-disk"] += 1
+            else:
+                retry_opts["overwrite"] = True
         finished = set(allb)
 
         if stage == "wrong-desc":
@@ -304,7 +319,7 @@ def run_c12(ctx):
         ctx.t("retry", retry_opts or "")
         val, _ = m.call("reaper-retry", do_reap(factory, **retry_opts), oracle="retry-raised")
         reap_crop, res = val
-        check_delivery(m, res, reap_crop, role, kind, None, stage, pre_ds, pre_rows,
+        check_delivery(m, res, reap_crop, role, kind, None, check_stage, pre_ds, pre_rows,
                        overwrite=retry_opts.get("overwrite"))
         if G.rexists(m.location):
             raise Violation("crop-left-after-successful-reap",
